@@ -242,8 +242,7 @@ func (x *Exec) applyContract(fr *Frame, st *State, con *FuncContract, fn *ssa.Fu
 	}
 	ce := &cenv{x: x, st: st, old: st, vars: vars, fr: nil}
 	for _, cl := range con.Requires {
-		g := ce.evalBool(cl.Expr)
-		x.assert(st, "precondition", fmt.Sprintf("%s requires %s", key, cl.Src), g, pos, cl)
+		x.assertClause(st, "precondition", key+" requires ", ce, cl, pos)
 	}
 	if con.Flags["panics"] != "" {
 		x.assert(st, "panic", "call of panicking function "+key, tFalse, pos, nil)
@@ -483,7 +482,7 @@ func (x *Exec) callDynamic(fr *Frame, st *State, cc *ssa.CallCommon, fv *Term, a
 			x.assert(st, "nil", "call of nil callback "+key, mkNot(mkEq(fv, mkInt(0))), pos, nil)
 			ce := &cenv{x: x, st: st, old: fr.old, vars: vars}
 			for _, cl := range con.Requires {
-				x.assert(st, "callback", fmt.Sprintf("%s requires %s", key, cl.Src), ce.evalBool(cl.Expr), pos, cl)
+				x.assertClause(st, "callback", key+" requires ", ce, cl, pos)
 			}
 			x.note("callback " + key + " assumed not to modify state visible to the verified function")
 			pre := st.clone()
@@ -631,16 +630,19 @@ func (x *Exec) execIterator(fr *Frame, st *State, con *FuncContract, fn *ssa.Fun
 	}
 	ce0 := &cenv{x: x, st: st, old: st, vars: vars}
 	for _, cl := range con.Requires {
-		x.assert(st, "precondition", fmt.Sprintf("%s requires %s", con.Key, cl.Src), ce0.evalBool(cl.Expr), pos, cl)
+		x.assertClause(st, "precondition", con.Key+" requires ", ce0, cl, pos)
 	}
 	n := x.toTerm(ce0.eval(cntE).v, types.Typ[types.Int])
 	entry := st.clone()
 	// the jump cell (first binding named jump$k) must be 0 on entry
+	invEnv := func(s *State, i *Term) *cenv {
+		return x.clauseEnv(fr, s, map[string]cvar{"_i": {i, types.Typ[types.Int]}, "_n": {n, types.Typ[types.Int]}})
+	}
 	evalInv := func(s *State, i *Term, cl *Clause) *Term {
 		return x.evalClauseWith(fr, s, cl, map[string]cvar{"_i": {i, types.Typ[types.Int]}, "_n": {n, types.Typ[types.Int]}})
 	}
 	for _, cl := range invs {
-		x.assert(entry, "loop-entry", fmt.Sprintf("loop %d: %s", ord, cl.Src), evalInv(entry, mkInt(0), cl), pos, cl)
+		x.assertClause(entry, "loop-entry", fmt.Sprintf("loop %d: ", ord), invEnv(entry, mkInt(0)), cl, pos)
 	}
 	elemPtr := func(s *State, i *Term) *PtrVal {
 		ce := &cenv{x: x, st: s, old: s, vars: map[string]cvar{"_i": {i, types.Typ[types.Int]}}}
@@ -730,7 +732,7 @@ func (x *Exec) execIterator(fr *Frame, st *State, con *FuncContract, fn *ssa.Fun
 				x.assert(cs, "iterator", "container header unchanged by loop body", mkEq(sh[k], shape0[k]), pos, nil)
 			}
 			for _, cl := range invs {
-				x.assert(cs, "loop-preserve", fmt.Sprintf("loop %d: %s", ord, cl.Src), evalInv(cs, mkAdd(i, mkInt(1)), cl), pos, cl)
+				x.assertClause(cs, "loop-preserve", fmt.Sprintf("loop %d: ", ord), invEnv(cs, mkAdd(i, mkInt(1))), cl, pos)
 			}
 		}
 		// break edge
@@ -883,7 +885,7 @@ func (x *Exec) execInvoke(fr *Frame, st *State, cc *ssa.CallCommon, in ssa.Instr
 		}
 		ce := &cenv{x: x, st: st, old: st, vars: vars}
 		for _, cl := range con.Requires {
-			x.assert(st, "precondition", fmt.Sprintf("%s requires %s", key, cl.Src), ce.evalBool(cl.Expr), pos, cl)
+			x.assertClause(st, "precondition", key+" requires ", ce, cl, pos)
 		}
 		if con.Flags["trusted"] != "" {
 			x.unit.Trusted[key] = true
@@ -937,7 +939,7 @@ func (x *Exec) onChanSend(fr *Frame, st *State, ch *Term, v Val, et types.Type, 
 	}
 	ce := &cenv{x: x, st: st, old: fr.old, vars: vars}
 	for _, cl := range con.Requires {
-		x.assert(st, "chan-invariant", fmt.Sprintf("send on %s requires %s", key, cl.Src), ce.evalBool(cl.Expr), in.Pos(), cl)
+		x.assertClause(st, "chan-invariant", "send on "+key+" requires ", ce, cl, in.Pos())
 	}
 }
 
